@@ -206,6 +206,8 @@ def rule_R1(src, ed, lo, hi, fname):
     toks = src.toks
     for i in range(lo, hi):
         t = toks[i]
+        if _skipped(i):
+            continue
         if t.kind == "punct" and t.text in _COMPOUND:
             s = _stmt_start(src, i, lo)
             e = _stmt_end(src, i + 1, hi)
@@ -222,6 +224,8 @@ def rule_R8(src, ed, lo, hi, fname):
     toks = src.toks
     for i in range(lo, hi):
         t = toks[i]
+        if _skipped(i):
+            continue
         if not (t.kind == "punct" and t.text == "-"):
             continue
         prev = toks[i - 1] if i > lo else None
@@ -260,6 +264,9 @@ def rule_R10(src, ed, lo, hi, fname):
     i = lo
     while i < hi:
         t = toks[i]
+        if _skipped(i):
+            i += 1
+            continue
         if t.kind == "ident" and t.text.startswith("debug_assert") and toks[i + 1].text == "!":
             close = src.pairs[i + 2]
             end = close + 1
@@ -356,7 +363,84 @@ def _chain_start(src, dot, lo):
     return j + 1
 
 
-RULES = {"R1": rule_R1, "R7": rule_R7, "R8": rule_R8, "R10": rule_R10}
+def rule_R3(src, ed, lo, hi, fname):
+    """`let [a, b] = X;` (array pattern of identifiers / `_`, X an identifier or `&`identifier) ->
+    `let a = X[0]; let b = X[1];`  (arrays of Copy scalars or references; length is in the type)."""
+    toks = src.toks
+    i = lo
+    while i < hi:
+        t = toks[i]
+        if _skipped(i):
+            i += 1
+            continue
+        if t.kind == "ident" and t.text == "let" and toks[i + 1].text == "[":
+            c = src.pairs[i + 1]
+            names = []
+            muts = []
+            ok = True
+            j = i + 2
+            pending_mut = False
+            while j < c:
+                if toks[j].kind == "ident" and toks[j].text == "mut":
+                    pending_mut = True
+                elif toks[j].kind == "ident" and toks[j].text != "ref":
+                    names.append(toks[j].text)
+                    muts.append(pending_mut)
+                    pending_mut = False
+                elif toks[j].text == ",":
+                    pass
+                else:
+                    ok = False
+                j += 1
+            e = _stmt_end(src, c + 1, hi)
+            rhs_toks = toks[c + 2:e]
+            if toks[c + 1].text != "=" or not ok:
+                raise Undecided("R3: unsupported array pattern in %s" % fname)
+            rhs = src.text[toks[c + 2].pos:toks[e - 1].end]
+            mrep = re.match(r"^\[\s*([A-Za-z0-9_:.]+)\s*;\s*(\d+)\s*\]$", rhs)
+            if mrep and int(mrep.group(2)) == len(names):
+                # `let [mut a, mut b] = [CONST; 2];` -> one let per name (CONST is a literal or constant path)
+                const = {"f64::INFINITY": "__inf()", "f64::NEG_INFINITY": "__neg_inf()"}.get(mrep.group(1), mrep.group(1))
+                new = " ".join("let %s%s = %s;" % ("mut " if mu else "", n, const) for n, mu in zip(names, muts) if n != "_")
+                ed.replace(t.pos, toks[e].end, new, rule="R3(+R9) %s: `let [%s] = %s;`" % (fname, ", ".join(names), rhs))
+                SKIP.append((i, e + 1))
+                i = e + 1
+                continue
+            if any(muts):
+                raise Undecided("R3: `mut` binding in array pattern over a place in %s" % fname)
+            amp = ""
+            base = rhs
+            if rhs.startswith("&mut "):
+                raise Undecided("R3: `&mut` array destructuring in %s" % fname)
+            if rhs.startswith("&"):
+                amp, base = "&", rhs[1:].strip()
+            if not re.match(r"^[A-Za-z_][A-Za-z0-9_.]*$", base):
+                raise Undecided("R3: array pattern initialiser `%s` is not a place in %s" % (rhs, fname))
+            new = " ".join("let %s = %s%s[%d];" % (n, amp, base, k) for k, n in enumerate(names) if n != "_")
+            ed.replace(t.pos, toks[e].end, new, rule="R3 %s: `let [%s] = %s;`" % (fname, ", ".join(names), rhs))
+            i = e + 1
+            continue
+        i += 1
+
+
+def rule_R9(src, ed, lo, hi, fname):
+    """associated float constants this Verus rejects: f64::INFINITY -> __inf(), f64::NEG_INFINITY ->
+    __neg_inf() (external_body wrappers whose bodies ARE the constants)."""
+    toks = src.toks
+    for i in range(lo, hi - 2):
+        if _skipped(i):
+            continue
+        if toks[i].text == "f64" and toks[i + 1].text == "::" and toks[i + 2].text in ("INFINITY", "NEG_INFINITY"):
+            new = "__inf()" if toks[i + 2].text == "INFINITY" else "__neg_inf()"
+            ed.replace(toks[i].pos, toks[i + 2].end, new, rule="R9 %s: f64::%s" % (fname, toks[i + 2].text))
+
+
+RULES = {"R9": rule_R9, "R1": rule_R1, "R3": rule_R3, "R7": rule_R7, "R8": rule_R8, "R10": rule_R10}
+SKIP = []  # token ranges (s, e) in which rules must not fire (abstracted statements)
+
+
+def _skipped(i):
+    return any(s <= i < e for (s, e) in SKIP)
 
 
 # --------------------------------------------------------------------------------------------
@@ -450,9 +534,21 @@ def extract_fn(src, loc, spec, ed):
     contract = spec.get("contract", "").strip()
     if contract:
         ed.insert(toks[brace].pos, "\n    " + contract.replace("\n", "\n    ") + "\n", order=5)
-    # body rules
-    for r in spec.get("rules", ["R1", "R10"]):
+    # slice tables (R6)
+    abstracted = []
+    del SKIP[:]
+    if spec.get("table"):
+        apply_slice(src, ed, brace, close, spec["table"], name, spec.get("forbidden", ()))
+        loops_all = find_loops(src, brace + 1, close)
+        for k, tbl in spec.get("loop_tables", {}).items():
+            if k >= len(loops_all):
+                raise Undecided("lost anchor: loop #%d of %s" % (k, name))
+            apply_slice(src, ed, loops_all[k]["open"], loops_all[k]["close"], tbl, "%s loop #%d" % (name, k), spec.get("forbidden", ()))
+            abstracted.append(loops_all[k])
+    # body rules (not inside abstracted statements: overlapping edits are rejected by Edits.apply)
+    for r in spec.get("rules", ["R3", "R1", "R9", "R10"]):
         RULES[r](src, ed, brace + 1, close, name)
+    del SKIP[:]
     # entry text
     if spec.get("entry"):
         ed.insert(toks[brace].end, "\n" + spec["entry"] + "\n", order=5)
@@ -586,14 +682,13 @@ def extract_block_as_fn(src, loc, spec, ed):
                         j += 1
                     j += 1
                 if toks[j].text == "{":
-                    k += 1
-                    if k == spec["closure"]:
-                        b_open = j
-                        if spec.get("header_re"):
-                            hdr = " ".join(src.text[t.pos:toks[j].pos].split())
-                            if not re.search(spec["header_re"], hdr):
-                                raise Undecided("lost anchor: closure #%d of %s has parameters `%s`" % (k, spec["path"], hdr))
-                        break
+                    hdr = " ".join(src.text[t.pos:toks[j].pos].split())
+                    # ordinal counts block-bodied closures whose parameter list matches header_re
+                    if not spec.get("header_re") or re.search(spec["header_re"], hdr):
+                        k += 1
+                        if k == spec["closure"]:
+                            b_open = j
+                            break
             i += 1
         if b_open is None:
             raise Undecided("lost anchor: closure #%d of %s" % (spec["closure"], spec["path"]))
@@ -615,8 +710,16 @@ def extract_block_as_fn(src, loc, spec, ed):
                                    (" -> (%s: %s)" % (spec.get("ret", "out"), spec["ret_type"])) if spec.get("ret_type") else "")
     contract = spec.get("contract", "").strip()
     ed.insert(toks[b_open].pos, header + ("\n    " + contract.replace("\n", "\n    ") + "\n" if contract else "\n"), order=-5)
-    for r in spec.get("rules", ["R1", "R10"]):
+    del SKIP[:]
+    if spec.get("table"):
+        apply_slice(src, ed, b_open, b_close, spec["table"], name, spec.get("forbidden", ()))
+        for k, tbl in spec.get("loop_tables", {}).items():
+            if k >= len(depth_loops):
+                raise Undecided("lost anchor: inner loop #%d of %s" % (k, name))
+            apply_slice(src, ed, depth_loops[k]["open"], depth_loops[k]["close"], tbl, "%s loop #%d" % (name, k), spec.get("forbidden", ()))
+    for r in spec.get("rules", ["R3", "R1", "R9", "R10"]):
         RULES[r](src, ed, b_open + 1, b_close, name)
+    del SKIP[:]
     if spec.get("entry"):
         ed.insert(toks[b_open].end, "\n" + spec["entry"] + "\n", order=5)
     if spec.get("exit"):
@@ -655,3 +758,89 @@ def extract_block_as_fn(src, loc, spec, ed):
     ed.log.append("BLOCK %s: body of %s #%d of `%s` emitted as fn %s(%s); its header is not part of this unit" % (
         name, "loop" if "loop" in spec else "closure", spec.get("loop", spec.get("closure")), spec["path"], name, spec["params"]))
     return toks[b_open].pos, toks[b_close].end
+
+
+# --------------------------------------------------------------------------------------------
+# slice units (R6): statement tables
+# --------------------------------------------------------------------------------------------
+
+_BLOCK_START = ("for", "while", "loop", "if", "match", "unsafe")
+
+
+def split_statements(src, open_idx, close_idx):
+    """Top-level statements of the block toks[open_idx] '{' .. toks[close_idx] '}' as (s, e) token
+    ranges (e exclusive, including the trailing ';' when present)."""
+    toks = src.toks
+    out = []
+    i = open_idx + 1
+    while i < close_idx:
+        s = i
+        first = toks[i]
+        is_block_stmt = first.kind == "ident" and first.text in _BLOCK_START
+        j = i
+        while j < close_idx:
+            t = toks[j]
+            if t.kind == "punct" and t.text in "([":
+                j = src.pairs[j] + 1
+                continue
+            if t.kind == "punct" and t.text == "{":
+                j = src.pairs[j] + 1
+                if is_block_stmt:
+                    # `if .. {} else {}` chains continue
+                    if j < close_idx and toks[j].kind == "ident" and toks[j].text == "else":
+                        j += 1
+                        continue
+                    # a trailing `;` after the block belongs to it; `.method()` after a block makes it an expression
+                    if j < close_idx and toks[j].text == ";":
+                        j += 1
+                        break
+                    if j < close_idx and toks[j].text in (".", "?"):
+                        is_block_stmt = False
+                        continue
+                    break
+                continue
+            if t.kind == "punct" and t.text == ";":
+                j += 1
+                break
+            j += 1
+        out.append((s, j))
+        i = j
+    return out
+
+
+def apply_slice(src, ed, open_idx, close_idx, table, what, forbidden=()):
+    """Classify every top-level statement of a block by the unit's table.  Rows are
+    (regex on the statement's whitespace-normalised text, "keep") or (regex, ("abstract", replacement)).
+    Every statement must match exactly one row; abstract statements must not leave the block and
+    must not mention a forbidden identifier.  Returns the list of classifications (for evidence)."""
+    toks = src.toks
+    res = []
+    fired = set()
+    for (s, e) in split_statements(src, open_idx, close_idx):
+        text = " ".join(src.text[toks[s].pos:toks[e - 1].end].split())
+        hits = [(i, row) for i, row in enumerate(table) if row[1] != "keep" and re.match(row[0], text)]
+        if len(hits) > 1:
+            raise Undecided("slice %s: statement `%s...` matched %d abstraction rows" % (what, text[:60], len(hits)))
+        if not hits:
+            # default: the statement is KEPT verbatim and goes to the verifier as it is
+            res.append(("keep", text[:70]))
+            continue
+        i, row = hits[0]
+        fired.add(i)
+        kind, repl = row[1]
+        assert kind == "abstract"
+        for k in range(s, e):
+            t = toks[k]
+            if t.kind == "ident" and t.text in ("break", "continue", "return"):
+                raise Undecided("slice %s: abstract statement `%s...` contains `%s`" % (what, text[:40], t.text))
+            if t.kind == "punct" and t.text == "?":
+                raise Undecided("slice %s: abstract statement `%s...` contains `?`" % (what, text[:40]))
+            if t.kind == "ident" and t.text in forbidden:
+                raise Undecided("slice %s: abstract statement `%s...` mentions `%s`" % (what, text[:40], t.text))
+        ed.replace(toks[s].pos, toks[e - 1].end, repl, rule="R6 %s: abstracted `%s...`" % (what, text[:50]))
+        SKIP.append((s, e))
+        res.append(("abstract", text[:70]))
+    for i, row in enumerate(table):
+        if row[1] != "keep" and i not in fired:
+            raise Undecided("lost anchor: slice %s: no statement matches abstraction row %r" % (what, row[0][:60]))
+    return res
